@@ -156,7 +156,7 @@ def _behaviour(draw, meas, in_subtest, timeout_phase, simple=False):
   else:
     end = _weighted(draw, [('NONE', 22), ('CONTINUE', 8), ('FAIL_AND_CONTINUE', 6), ('SKIP', 4), ('REPEAT', 4), ('STOP', 3),
                            ('FAIL_SUBTEST', 8 if in_subtest else 1), ('INVALID', 1), ('INVALID_FALSE', 1), ('INVALID_ZERO', 1),
-                           ('INVALID_EMPTY', 1), ('RAISE_A', 2), ('RAISE_A2', 1), ('RAISE_B', 1), ('RAISE_O', 2)])
+                           ('INVALID_EMPTY', 1), ('RAISE_A', 2), ('RAISE_A2', 1), ('RAISE_B', 1), ('RAISE_O', 2), ('RAISE_BADSTR', 1)])
   sets = {}
   for name in meas:
     v = _weighted(draw, [('p', 14), ('f', 4), (None, 2), ('x', 1), ('px', 1)])
